@@ -714,6 +714,9 @@ class PybindWrapper:
         module = instantiator.instantiate_namespace(module)
 
         self._submodule_vars = []
+        # The docs of overloads are told apart by the order in which they are
+        # asked for; every file starts counting afresh.
+        self.xml_parser = XMLDocParser()
         wrapped_namespace, includes = self.wrap_namespace(module)
 
         if self.use_boost_serialization:
